@@ -199,11 +199,20 @@ pub fn run(ctx: &Ctx) -> i32 {
     };
     let count = (n32 - off + stride - 1) / stride;
     let cfg2 = [0usize, 1usize];
+    let base_distinct = rep.stats.distinct_nontrivial();
     let r = run_sweep(count, ctx.threads, |i, stats| {
         let bits = off + i * stride;
-        check_value(Fmt::F32, bits, &cfg2, i % 64 == 0, stats, 0x32)
+        let res = check_value(Fmt::F32, bits, &cfg2, i % 64 == 0, stats, 0x32);
+        // enumerated patterns are distinct by construction: count the non-trivial renderings instead of keeping
+        // a fingerprint for each (the complete sweep has ~10^10 of them)
+        let k = stats.nontrivial.len() as u64;
+        stats.nontrivial.clear();
+        stats.add("f32-sweep-nontrivial-renderings", k);
+        res
     });
+    let swept_nontrivial = r.stats.counters.get("f32-sweep-nontrivial-renderings").copied().unwrap_or(0);
     rep.absorb(r);
+    rep.extra.insert("distinct_nontrivial_override".into(), json!(base_distinct + swept_nontrivial));
     rep.extra.insert("f32_sweep".into(), json!({"stride": stride, "offset": off, "patterns": count, "configs": ["default", "compact"], "complete": stride == 1}));
     require_counter(&mut rep, "digits>100", 1000);
     require_counter(&mut rep, "x-subnormal", 1000);
